@@ -302,9 +302,12 @@ func (c16) RunCase(c *fw.Ctx, rng *fw.RNG, batch, i int) {
 			c16LinkProbe(c)
 		}
 		c16WalkTransform(c, rng)
+		if i%8 == 7 {
+			c16WalkTransformControls(c, rng)
+		}
 		return
 	}
-	g := graphgen.Gen(rng, graphgen.Opts{MaxBlocks: 6, MaxDepth: 3, MaxWidth: 4})
+	g := graphgen.Gen(rng, graphgen.Opts{MaxBlocks: 6, MaxDepth: 3, MaxWidth: 4, NumLookalikes: true})
 	st := c16Store{}
 	for l, v := range g.Vals {
 		st[l] = v
@@ -602,7 +605,7 @@ func c16Reload(c *fw.Ctx, lsys linking.LinkSystem, st c16Store, n datamodel.Node
 // ---- WalkTransforming over link-free trees
 
 func c16WalkTransform(c *fw.Ctx, rng *fw.RNG) {
-	g := graphgen.Gen(rng, graphgen.Opts{MaxBlocks: 1, MaxDepth: 4, MaxWidth: 4})
+	g := graphgen.Gen(rng, graphgen.Opts{MaxBlocks: 1, MaxDepth: 4, MaxWidth: 4, NumLookalikes: true})
 	root := g.Root
 	// make it link-free (a single block has no links anyway)
 	s := selgen.Gen(rng, selgen.Opts{MaxDepth: 4, Keys: g.Keys, MaxIndex: g.MaxLen + 1, NoSubset: true})
@@ -740,5 +743,113 @@ func c16LinkProbe(c *fw.Ctx) {
 	}
 	if got := obs.ReadOut(out, obs.Options{Light: true}).Val; !model.Equal(got, root) {
 		c.Deviate("C16:walk-transform-inlines-linked-blocks", fmt.Sprintf("identity WalkTransforming of %s through a link returned %s: the loaded block replaces the link instead of being stored and re-linked", root.Dump(), got.Dump()))
+	}
+}
+
+// c16WalkTransformControls: the walking transform over graphs WITH links while a traversal control keeps some
+// links from being followed — visit-links-once with a link that occurs more than once, or a loader that
+// answers SkipMe. What the transform returns for a followed link is the known finding (the loaded block is
+// inlined); what it must not do, whatever happens at links, is lose or reorder entries: the result has the
+// input's skeleton — every map the same keys in the same order, every list the same length, recursively through
+// everything that is not a link in the input — and a link that was not followed is still that link.
+// (Found by reading a surviving mechanical mutant in walk_transform_iterateList: unfollowed links were dropped
+// from lists and wedged the map assembler; repaired, §4.)
+func c16WalkTransformControls(c *fw.Ctx, rng *fw.RNG) {
+	g, root, s, sel, err := travSetup(rng, graphgen.Opts{MaxBlocks: 6, MaxDepth: 3, MaxWidth: 4, RawBlocks: true}, selgen.Opts{MaxDepth: 3, NoSubset: true})
+	if err != nil || sel == nil {
+		return
+	}
+	if rng.Bool() {
+		sel = c11ExploreAllSel()
+	}
+	lsys, _ := g.LinkSystem()
+	links := g.Links()
+	skip := map[string]bool{}
+	once := rng.Bool()
+	if !once || rng.Chance(1, 3) {
+		for _, l := range links {
+			if rng.Chance(1, 2) {
+				skip[l] = true
+			}
+		}
+	}
+	inner := lsys.StorageReadOpener
+	lsys.StorageReadOpener = func(lc linking.LinkContext, l datamodel.Link) (io.Reader, error) {
+		if skip[l.Binary()] {
+			return nil, traversal.SkipMe{}
+		}
+		return inner(lc, l)
+	}
+	cfg := &traversal.Config{LinkSystem: lsys, LinkVisitOnlyOnce: once, LinkTargetNodePrototypeChooser: func(datamodel.Link, linking.LinkContext) (datamodel.NodePrototype, error) {
+		return basicnode.Prototype.Any, nil
+	}}
+	c.SetCase(func() any {
+		return map[string]any{"family": "walk-transform under link controls", "root": g.Root.Dump(), "selector": s.String(), "visit_once": once, "skipped_links": len(skip)}
+	})
+	var out datamodel.Node
+	var terr error
+	if c.Guard("C16:WalkTransforming:link-controls", func() {
+		out, terr = traversal.Progress{Cfg: cfg}.WalkTransforming(root, sel, func(_ traversal.Progress, n datamodel.Node) (datamodel.Node, error) { return n, nil })
+	}) {
+		return
+	}
+	c.Count("walk_transforms_under_link_controls", 1)
+	if terr != nil {
+		if strings.Contains(terr.Error(), "not found") || strings.Contains(terr.Error(), "could not load") {
+			return // a link to a block that is not stored: the walk may say so
+		}
+		c.Deviate("C16:walk-transform-link-controls:error", fmt.Sprintf("identity WalkTransforming (visit-once=%v, %d links skipped by the loader) failed: %v", once, len(skip), terr))
+		return
+	}
+	got := obs.ReadOut(out, obs.Options{Light: true}).Val
+	var why string
+	var cmp func(in, o model.Val, path string) bool
+	cmp = func(in, o model.Val, path string) bool {
+		switch in.K {
+		case model.KLink:
+			if o.K == model.KLink && o.S != in.S {
+				why = fmt.Sprintf("at <%s> the link changed", path)
+				return false
+			}
+			if o.K != model.KLink && skip[in.S] {
+				why = fmt.Sprintf("at <%s> a link the loader skipped was replaced by a %v", path, o.K)
+				return false
+			}
+			return true // followed: what stands there is the known finding's business
+		case model.KMap:
+			if o.K != model.KMap || len(o.M) != len(in.M) {
+				why = fmt.Sprintf("at <%s> a map of %d entries became %v with %d entries", path, len(in.M), o.K, len(o.M))
+				return false
+			}
+			for i := range in.M {
+				if in.M[i].K != o.M[i].K {
+					why = fmt.Sprintf("at <%s> entry #%d has key %q, was %q", path, i, o.M[i].K, in.M[i].K)
+					return false
+				}
+				if !cmp(in.M[i].V, o.M[i].V, path+"/"+in.M[i].K) {
+					return false
+				}
+			}
+			return true
+		case model.KList:
+			if o.K != model.KList || len(o.L) != len(in.L) {
+				why = fmt.Sprintf("at <%s> a list of %d elements became %v with %d elements", path, len(in.L), o.K, len(o.L))
+				return false
+			}
+			for i := range in.L {
+				if !cmp(in.L[i], o.L[i], fmt.Sprintf("%s/%d", path, i)) {
+					return false
+				}
+			}
+			return true
+		}
+		if !model.Equal(in, o) {
+			why = fmt.Sprintf("at <%s> %s became %s", path, clipS(in.Dump(), 60), clipS(o.Dump(), 60))
+			return false
+		}
+		return true
+	}
+	if !cmp(g.Root, got, "") {
+		c.Deviate("C16:walk-transform-link-controls:entries-lost-or-changed", fmt.Sprintf("identity WalkTransforming (visit-once=%v, %d links skipped by the loader): %s\ninput  %s\nresult %s", once, len(skip), why, clipS(g.Root.Dump(), 600), clipS(got.Dump(), 600)))
 	}
 }
